@@ -117,6 +117,8 @@ class Gen:
             n = self.node()
             c = self.child(n)
             sub = self.set_sub()
+            if r.random() < 0.15:      # value types of OTHER protocol versions (newer-only / older-only)
+                sub = r.choice(list(VALID_SET) + FREE_SET + [40, 41, 47, 49, 56])
             vt = sub if r.random() < 0.7 else str(sub)
             if r.random() < 0.03:
                 vt = r.choice(["x", "", "1.0"])
